@@ -113,6 +113,11 @@ func DIDToURL(id did.DID) (*url.URL, error) {
 	if parsedIP != nil {
 		return nil, fmt.Errorf("invalid did:web: ID must be a domain name, not IP address")
 	}
+	// A domain name with an optional port holds at most one colon. "127.0.0.1:443:" parses as the name "127.0.0.1:443" with an
+	// empty port, which passes the IP address check above, after which net/http drops the empty port and dials the IP address.
+	if strings.Count(parsedURL.Host, ":") > 1 {
+		return nil, fmt.Errorf("invalid did:web: illegal characters in domain name")
+	}
 	return parsedURL, nil
 }
 
